@@ -298,6 +298,7 @@ def _conj(v):
 _INT_OPS = {ast.Add: lambda a, b: a + b, ast.Sub: lambda a, b: a - b, ast.Mult: lambda a, b: a * b, ast.FloorDiv: lambda a, b: a // b, ast.Mod: lambda a, b: a % b,
             ast.BitAnd: lambda a, b: a & b, ast.BitOr: lambda a, b: a | b, ast.BitXor: lambda a, b: a ^ b,
             ast.LShift: lambda a, b: a << b if 0 <= b < 64 else (_ for _ in ()).throw(ValueError()), ast.RShift: lambda a, b: a >> b if 0 <= b < 64 else (_ for _ in ()).throw(ValueError())}
+_DUNDERS = {ast.Add: ("__add__", "__radd__"), ast.Sub: ("__sub__", "__rsub__"), ast.Mult: ("__mul__", "__rmul__"), ast.Div: ("__truediv__", "__rtruediv__")}
 _CURRENT_CALL: list = []
 _DIVISORS: list = []  # the sums that were divided by since the list was last cleared (E19.act asks where they vanish)
 
@@ -690,6 +691,14 @@ class Interp:
                 return Ratio(ln * rn, ld * rd) if isinstance(e.op, ast.Mult) else Ratio(ln * rd, ld * rn)
             if isinstance(l, SymObject) and isinstance(e.op, ast.Mult) and hasattr(l, "mul"):
                 return l.mul(r)
+            if self.generic and self.depth < 6 and (isinstance(l, TensorSym) or isinstance(r, TensorSym)) and type(e.op) in _DUNDERS:
+                # arithmetic on a symbolic tensor: the operator method of the most derived library class among its kinds, the reflected one for `scalar OP tensor`
+                fwd, rev = _DUNDERS[type(e.op)]
+                recv_, arg_, nm_ = (l, r, fwd) if isinstance(l, TensorSym) else (r, l, rev)
+                owners = [c for c in self.prog.classes.values() if c.name in (getattr(recv_, "kinds", None) or ()) and nm_ in c.methods]
+                if owners:
+                    own = max(owners, key=lambda c: len(self.prog.mro(c)))
+                    return self.run_method(own.methods[nm_], recv_, [arg_], {})
             if isinstance(l, TensorSym) and isinstance(e.op, ast.Mult) and self.depth < 5:
                 tcls = self.prog.find_cls("Tensor")
                 m_ = self.prog.lookup(tcls, "__mul__") if tcls is not None else None
@@ -863,6 +872,9 @@ class Interp:
             if isinstance(l, (tuple, list)) and isinstance(r, (tuple, list)) and isinstance(op, (ast.Eq, ast.NotEq)) \
                     and all(isinstance(x, int) for x in list(l) + list(r)):
                 return (tuple(l) == tuple(r)) == isinstance(op, ast.Eq)
+            if self.generic and isinstance(op, (ast.Eq, ast.NotEq)) and isinstance(l, Table) and isinstance(r, (LP, int)) and not isinstance(r, bool):
+                vals_ = {k_: zero_mod(x_ - self.lp(r), self.rules) == isinstance(op, ast.Eq) for k_, x_ in l.data.items()}
+                return Table(l.shape, vals_) if l.shape else vals_[()]
             if self.generic and isinstance(op, (ast.Eq, ast.NotEq)) and isinstance(l, (LP, int)) and isinstance(r, (LP, int)) and not isinstance(l, bool) and not isinstance(r, bool):
                 # generic position: two polynomials are equal only if they are the same polynomial
                 same_ = zero_mod(self.lp(l) - self.lp(r), self.rules)
@@ -1204,6 +1216,16 @@ class Interp:
                 a_, b_ = self.ev(e.args[0], env), self.ev(e.args[1], env)
                 if isinstance(a_, int) and isinstance(b_, int):
                     return range(a_, b_)
+            if name in ("maximum", "minimum") and len(e.args) == 2 and not e.keywords:
+                a2 = [self.num(self.ev(a, env)) for a in e.args]
+
+                def const_of(x):
+                    return x.t.get((), Fraction(0)) if isinstance(x, LP) and (not x.t or set(x.t) == {()}) else None
+                pick = max if name == "maximum" else min
+                if all(isinstance(x, LP) for x in a2) and all(const_of(x) is not None for x in a2):
+                    return LP.const(pick(const_of(a2[0]), const_of(a2[1])))
+                if all(isinstance(x, Table) for x in a2) and a2[0].shape == a2[1].shape and all(const_of(v) is not None for x in a2 for v in x.data.values()):
+                    return Table(a2[0].shape, {k: LP.const(pick(const_of(v), const_of(a2[1].data[k]))) for k, v in a2[0].data.items()})
             if name in ("maximum", "minimum", "abs", "absolute", "sqrt") and e.args and not (name == "sqrt" and self.ratio_mode):
                 args = [self.num(self.ev(a, env)) for a in e.args]
                 if isinstance(args[0], Table):
@@ -1280,6 +1302,7 @@ class Interp:
                     extra = [self.lp(x) for x in b_] if isinstance(b_, list) else [self.lp(b_)] if isinstance(b_, (int, LP)) else None
                     if isinstance(b_, Table) and len(b_.shape) == 1:
                         extra = [b_.data[(i,)] for i in range(b_.shape[0])]
+                        extra = [LP.const(1 if x is True else 0) if isinstance(x, bool) else x for x in extra]  # (numpy casts truth values to 1 / 0)
                     if extra is not None:
                         vals = [a_.data[(i,)] for i in range(a_.shape[0])] + extra
                         return Table((len(vals),), {(i,): x for i, x in enumerate(vals)})
@@ -3234,6 +3257,21 @@ def rule_join_meet(run: Run, prog: Program, part: str = "span") -> int:
 
 
 # ---------------------------------------------------------------------------------------------- parallels and mirror images (C10)
+def _normalize_hook(a_, k_):
+    """PointLikeTensor._normalize_array by its contract, for one vector: divided by the last coordinate unless that is zero. Only a MONOMIAL divisor is
+    read (an exact Laurent quotient); a sum would leave an atom that no later identity could cancel"""
+    t = a_[-1] if a_ else None
+    if not isinstance(t, Table) or len(t.shape) != 1:
+        return Opaque("_normalize_array")
+    last = t.data[(t.shape[0] - 1,)]
+    if last.is_zero():
+        return t
+    if len(last.t) != 1:
+        raise Unknown("normalisation by a last coordinate that is a sum")
+    inv_ = last.inverse()
+    return Table(t.shape, {k: v * inv_ for k, v in t.data.items()})
+
+
 def _called_on_point_class() -> bool:
     """PointCollection.from_array(...) / Point.from_array(...): the class the hooked constructor-like method was called on"""
     c = _CURRENT_CALL[0] if _CURRENT_CALL else None
@@ -3241,11 +3279,16 @@ def _called_on_point_class() -> bool:
     return isinstance(f, ast.Attribute) and isinstance(f.value, ast.Name) and f.value.id.startswith("Point")
 
 
-def rule_metric_constructions(run: Run, prog: Program) -> int:
-    run.rule("E19.metric", "SubspaceTensor.parallel for a line of the plane and a plane of 3-space, and LineTensor.mirror in the plane, interpreted on symbolic "
-                           "coordinates (join / meet through the interpreted duality dispatcher, the circular points and the line at infinity read from the module, "
-                           "i^2 = -1): the parallel passes through the point and has the direction resp. the normal of the subspace; the mirror image is the "
-                           "Cartesian reflection (x, y) - 2 (a x + b y + c) / (a^2 + b^2) (a, b)")
+def rule_metric_constructions(run: Run, prog: Program, part: str = "metric") -> int:
+    if part == "harmonic":
+        run.rule("E19.harm", "harmonic_set(a, b, c) in the plane for symbolic a, b and c = alpha a + beta b, interpreted through the complete-quadrilateral construction "
+                             "(join / meet through the duality dispatcher; the auxiliary point off the line is a free symbolic point, so the result must not depend on "
+                             "it): the returned point is a non-zero multiple of alpha a - beta b, the point with cross ratio -1")
+    else:
+        run.rule("E19.metric", "SubspaceTensor.parallel for a line of the plane and a plane of 3-space, and LineTensor.mirror in the plane, interpreted on symbolic "
+                               "coordinates (join / meet through the interpreted duality dispatcher, the circular points and the line at infinity read from the module, "
+                               "i^2 = -1): the parallel passes through the point and has the direction resp. the normal of the subspace; the mirror image is the "
+                               "Cartesian reflection (x, y) - 2 (a x + b y + c) / (a^2 + b^2) (a, b)")
     duality = prog.find_func("_join_meet_duality")
     sub = prog.find_cls("SubspaceTensor")
     line_cls = prog.find_cls("LineTensor")
@@ -3259,6 +3302,8 @@ def rule_metric_constructions(run: Run, prog: Program) -> int:
     def kinds_for(t: TensorSym, n: int) -> set:
         if t.tensor_shape == (1, 0):
             return set(point_kinds)
+        if isinstance(t.array, Table) and len(t.array.shape) == 2:
+            return {"SubspaceTensor", "Subspace", "Tensor", "ProjectiveTensor", "LineTensor", "Line"}  # a 2-tensor of 3-space is a line
         return {"SubspaceTensor", "Subspace", "Tensor", "ProjectiveTensor"} | ({"LineTensor", "Line"} if n == 3 else {"PlaneTensor", "Plane"})
 
     def make_interp() -> "Interp":
@@ -3305,6 +3350,7 @@ def rule_metric_constructions(run: Run, prog: Program) -> int:
                     "TensorDiagram": lambda a_, k_: SymDiagram([tuple(x) for x in a_]) if all(isinstance(x, (list, tuple)) and len(x) == 2 for x in a_) else Opaque("diagram"),
                     "from_tensor": lambda a_, k_: a_[-1], "_divide_by_power_of_two": lambda a_, k_: a_[0],
                     "is_numerical_scalar": lambda a_, k_: isinstance(a_[0], (int, LP)) and not isinstance(a_[0], bool),
+                    "_normalize_array": _normalize_hook,
                     "from_array": lambda a_, k_: vec([a_[-1]], _called_on_point_class()) if a_ and isinstance(a_[-1], Table) and len(a_[-1].shape) == 1 else Opaque("from_array"),
                     "join": lambda a_, k_: dual_call(a_, k_), "meet": lambda a_, k_: dual_call(a_, k_),
                     "Point": lambda a_, k_: vec(a_, True), "Line": lambda a_, k_: vec(a_, False), "Plane": lambda a_, k_: vec(a_, False)}
@@ -3316,6 +3362,49 @@ def rule_metric_constructions(run: Run, prog: Program) -> int:
         return t
 
     n_ob = 0
+    if part == "harmonic":
+        fn_h = prog.find_func("harmonic_set")
+        if fn_h is None:
+            run.add("E19.harm", "harmonic_set", "harmonic conjugate in the plane", UNDECIDED, "harmonic_set not found", "")
+            return 0
+        fn_h = prog.body_of(fn_h)
+        params_h = [a_.arg for a_ in fn_h.node.args.args]
+        a_, b_ = obj("a", 3, True), obj("b", 3, True)
+        al, be = LP.sym("alpha"), LP.sym("beta")
+        c_ = TensorSym(Table((3,), {(i,): al * a_.array.data[(i,)] + be * b_.array.data[(i,)] for i in range(3)}), 1, 0)
+        c_.kinds = kinds_for(c_, 3)
+        it = make_interp()
+        free_pt = obj("o", 3, True)
+        inner_join = it.hooks["join"]
+
+        def join_with_general_point(args_, kw_):
+            got = inner_join(args_, kw_)
+            if isinstance(got, TensorSym):
+                got.__dict__["general_point"] = free_pt  # "a point not on the line": any point, the construction must not depend on which
+            return got
+        it.hooks["join"] = join_with_general_point
+        label = "harmonic conjugate of c = alpha a + beta b with respect to a, b in the plane"
+        try:
+            it.block(fn_h.node.body, dict(zip(params_h, [a_, b_, c_])))
+            run.add("E19.harm", fn_h.short, label, UNDECIDED, "no value is returned on the path of the plane", fn_h.loc)
+        except _Done as d:
+            res = d.matrix
+            if not isinstance(res, TensorSym) or not isinstance(res.array, Table) or res.array.shape != (3,):
+                run.add("E19.harm", fn_h.short, label, UNDECIDED, f"the result is not read ({getattr(res, 'why', type(res).__name__)[:80]})", fn_h.loc)
+                return 1
+            want = [al * a_.array.data[(i,)] - be * b_.array.data[(i,)] for i in range(3)]
+            got = [res.array.data[(i,)] for i in range(3)]
+            ok = not all(zero_mod(g_, it.rules) for g_ in got) and all(zero_mod(got[i] * want[j] - got[j] * want[i], it.rules) for i in range(3) for j in range(i + 1, 3))
+            run.add("E19.harm", fn_h.short, label, PROVEN if ok else VIOLATION,
+                    "the returned point is a non-zero multiple of alpha a - beta b for every auxiliary point: cr(a, b; c, d) = -1" if ok else
+                    "the returned point is not a multiple of alpha a - beta b: it is not the harmonic conjugate (or it depends on the auxiliary point)", fn_h.loc)
+        except _Raise as r_:
+            run.add("E19.harm", fn_h.short, label, VIOLATION, f"raises {r_.name} for collinear points in general position", fn_h.loc)
+        except RaisedIn as r_:
+            run.add("E19.harm", fn_h.short, label, VIOLATION, f"raises {r_.name} for collinear points in general position", fn_h.loc)
+        except (Unknown, NotPolynomial, RecursionError, KeyError, IndexError, TypeError, AttributeError) as ex:
+            run.add("E19.harm", fn_h.short, label, UNDECIDED, f"not read: {type(ex).__name__}: {str(ex)[:100]}", fn_h.loc)
+        return 1
     fn_par = prog.lookup(sub, "parallel")
     if fn_par is not None:
         fn_par = prog.body_of(fn_par)
@@ -3421,6 +3510,33 @@ def rule_metric_constructions(run: Run, prog: Program) -> int:
             run.add("E19.metric", fn_.short, label, PROVEN if ok else VIOLATION,
                     "the constructed line is the join of the point with the point at infinity in the direction of the normal (a, b, c) of the plane" if ok else
                     "the constructed line is not the join of the point with the point at infinity of the normal of the plane", fn_.loc)
+        except RaisedIn as r_:
+            run.add("E19.metric", fn_.short, label, VIOLATION, f"raises {r_.name} for a plane and a point in general position", fn_.loc)
+        except (Unknown, NotPolynomial, RecursionError, KeyError, IndexError, TypeError, AttributeError) as ex:
+            run.add("E19.metric", fn_.short, label, UNDECIDED, f"not read: {type(ex).__name__}: {str(ex)[:100]}", fn_.loc)
+    if fn_pperp is not None and fn_proj is not None:
+        n_ob += 1
+        fn_ = prog.body_of(fn_proj)
+        label = "foot of the perpendicular from a point to a plane of 3-space (project)"
+        e_, p_ = obj("e", 4, False), obj("p", 4, True)
+        e_.__dict__["dim"] = 3
+        it = make_interp()
+        try:
+            res = it.run_method(fn_, e_, [p_], {})
+            if not isinstance(res, TensorSym) or not isinstance(res.array, Table) or res.array.shape != (4,) or res.tensor_shape != (1, 0):
+                raise Unknown(f"the result is not a point ({getattr(res, 'why', type(res).__name__)[:60]})")
+            f_ = [res.array.data[(i,)] for i in range(4)]
+            x = [p_.array.data[(i,)] for i in range(4)]
+            nrm = [e_.array.data[(i,)] for i in range(3)]
+            on = sum((e_.array.data[(i,)] * f_[i] for i in range(4)), LP()).is_zero()
+            diff = [f_[i] * x[3] - x[i] * f_[3] for i in range(3)]  # F/F_w - P/P_w up to the factor F_w P_w
+            par = all((diff[i] * nrm[j] - diff[j] * nrm[i]).is_zero() for i in range(3) for j in range(i + 1, 3))
+            nonzero = not all(v.is_zero() for v in f_)
+            ok = on and par and nonzero
+            run.add("E19.metric", fn_.short, label, PROVEN if ok else VIOLATION,
+                    "the projected point lies on the plane and its connection with the point has the direction of the normal" if ok else
+                    ("the result vanishes identically" if not nonzero else "the projected point does not lie on the plane" if not on else
+                     "the projected point is not the foot of the perpendicular through the point"), fn_.loc)
         except RaisedIn as r_:
             run.add("E19.metric", fn_.short, label, VIOLATION, f"raises {r_.name} for a plane and a point in general position", fn_.loc)
         except (Unknown, NotPolynomial, RecursionError, KeyError, IndexError, TypeError, AttributeError) as ex:
